@@ -28,7 +28,7 @@ EDITS = ['rename_geometry', 'add_node', 'add_geometry', 'add_primitive_semantic'
 
 # ------------------------------------------------------------------ documents
 
-def make_xml(rng, ns, damage, direct_texture=None, image_name=None):
+def make_xml(rng, ns, damage, direct_texture=None, image_name=None, foreign=None):
     """a small document in namespace ns.  Ids come from a tiny alphabet shared by all documents
     (geom0, effect0, ...) while the data differ, so that anything keyed by id across documents shows."""
     nv = rng.randint(3, 6)
@@ -50,7 +50,7 @@ def make_xml(rng, ns, damage, direct_texture=None, image_name=None):
                 '<param name="Y" type="float"/><param name="Z" type="float"/></accessor></technique_common>' % (sid, nv))
     if damage == 'no_accessor':
         accessor = ''
-    extra_input = ('<input semantic="%s" source="#%s" offset="0"/>' % (rng.choice(['WEIRD', 'WEIGHT', 'JOINT']), sid)
+    extra_input = ('<input semantic="%s" source="#%s" offset="0"/>' % (foreign or rng.choice(['WEIRD', 'WEIGHT', 'JOINT']), sid)
                    if damage == 'unknown_semantic' else '')
     p = '' if damage == 'missing_p' else '<p>%s</p>' % idx
     use_poly = rng.random() < 0.5 and damage not in ('missing_p',)
@@ -465,6 +465,20 @@ def run(ctx):
                           steps=gen_steps(rng, rng.randint(2, 6))))
     for _ in range(nprog // 6):
         progs.append(gen_archive_prog(rng, len(progs)))
+    # every foreign input semantic of the alphabet: a document carrying it (loaded with the error
+    # ignored, its input lists taken) and a valid document edited through a fresh InputList naming it
+    sem_pairs = []
+    for si, sem in [(0, 'WEIRD'), (2, 'WEIGHT'), (3, 'JOINT')]:
+        a = {'name': 'p%d' % len(progs), 'ignore': rng.choice([['DaeUnsupportedError'], ['DaeError']]),
+             'source': {'kind': 'xml', 'xml': make_xml(rng, NS141, 'unknown_semantic', direct_texture=False, foreign=sem),
+                        'ns': NS141, 'damage': 'unknown_semantic'},
+             'steps': [['load'], ['edit', 'query', 0], ['save']]}
+        progs.append(a)
+        b = {'name': 'p%d' % len(progs), 'ignore': None,
+             'source': {'kind': 'xml', 'xml': make_xml(rng, NS141, 'none', direct_texture=False), 'ns': NS141, 'damage': 'none'},
+             'steps': [['load'], ['edit', 'add_primitive_semantic', si], ['save']]}
+        progs.append(b)
+        sem_pairs.append((len(progs) - 2, len(progs) - 1))
     small = []
     for _ in range(8 if quick else 16):
         small.append(len(progs))
@@ -557,6 +571,10 @@ def run(ctx):
         pick = [a, b] + [rng.choice(usable) for _ in range(rng.choice([0, 1]))]
         payloads.append(({'mode': 'gated', 'progs': [progs[i] for i in pick], 'parked': 2, 'gate_step': [rng.choice(ks), 0],
                           'gate_where': [None, 'ignore.isinstance'], 'release': rng.choice(['fifo', 'fifo', 'lifo'])}, pick))
+    for a, b in sem_pairs:
+        if a in usable and b in usable:
+            for sched_ in ([0, 0, 0, 1, 1, 1], [0, 1, 0, 1, 0, 1]):
+                payloads.append(({'mode': 'sched', 'progs': [progs[a], progs[b]], 'schedule': sched_}, [a, b]))
     # long sequential batches in which every document is dropped before the next is loaded
     for n in range(3 if quick else 20):
         pool_ = [i for i in small if i in usable]
